@@ -83,7 +83,7 @@ def make_grammars(seed, tier):
 def seam_vector(rng, canonical=False):
     """One vector of ambient values.  Canonical = zero random bytes, epoch 0, empty environment, no heap pad."""
     if canonical:
-        return {"rand": 0, "time": 0, "pid": 4242, "host": "canonical", "heappad": 0, "stack_kb": 8192, "env": {}}
+        return {"rand": 0, "time": 0, "pid": 4242, "host": "canonical", "heappad": 0, "heapfrag": 0, "stack_kb": 8192, "env": {}}
     env = {}
     for _ in range(rng.range(0, 12)):
         env[rng.choice(ENV_NAMES)] = rng.choice(ENV_VALUES)
@@ -93,6 +93,7 @@ def seam_vector(rng, canonical=False):
         "rand": rng.u64() | 1, "time": rng.choice([0, 1, 86400 * 365, 1700000000 + rng.below(10 ** 8), 2 ** 31 + rng.below(10 ** 6)]),
         "pid": rng.range(2, 4000000), "host": "h%d" % rng.below(10 ** 6),
         "heappad": rng.choice([0, 16, 24, 4096, 100000, rng.below(130000), 1 << 20, rng.below(1 << 24)]),
+        "heapfrag": rng.choice([0, rng.u64() | 1, rng.u64() | 1]),
         "stack_kb": rng.choice([8192, 8192, 16384, 262144, 524288, 1048576]),
         "env": env,
     }
@@ -108,7 +109,7 @@ def case_for(text, shell, vec, outputs=("script", "dfa", "regex")):
         argv += ["--dfa", DFA]
         roles["dotdfa"] = DFA
     argv.append(INPUT)
-    plan = ["rand %d" % vec["rand"], "time %d" % vec["time"], "pid %d" % vec["pid"], "host %s" % vec["host"], "heappad %d" % vec["heappad"]]
+    plan = ["rand %d" % vec["rand"], "time %d" % vec["time"], "pid %d" % vec["pid"], "host %s" % vec["host"], "heappad %d" % vec["heappad"], "heapfrag %d" % vec.get("heapfrag", 0)]
     return {"binary": "complgen", "argv": argv, "files": {INPUT: text}, "stdin": None, "stdout": "pipe", "roles": roles, "plan": plan,
             "env": dict(vec["env"]), "stack_kb": vec["stack_kb"], "watch": [OUT, DFA, REGEX]}
 
@@ -184,7 +185,7 @@ def run_harness(ops, files, vec, threads=False, timeout=120):
     watch = []
     for _, _, p in ops:
         watch += [p + ".script", p + ".dfa", p + ".regex", p + ".status"]
-    plan = ["rand %d" % vec["rand"], "time %d" % vec["time"], "pid %d" % vec["pid"], "host %s" % vec["host"], "heappad %d" % vec["heappad"]]
+    plan = ["rand %d" % vec["rand"], "time %d" % vec["time"], "pid %d" % vec["pid"], "host %s" % vec["host"], "heappad %d" % vec["heappad"], "heapfrag %d" % vec.get("heapfrag", 0)]
     case = {"binary": "harness", "argv": ["ops"] + (["--threads"] if threads else []), "files": fs, "stdin": None, "stdout": "pipe", "roles": {},
             "plan": plan, "env": dict(vec["env"]), "stack_kb": vec["stack_kb"], "watch": watch}
     res = proc.run_case(case, timeout=timeout)
@@ -281,7 +282,7 @@ def minimise(v):
     if v["mode"] == "directed":
         canonical = seam_vector(None, canonical=True)
         # seam values back to canonical, one at a time
-        for k in ("env", "heappad", "stack_kb", "rand", "time", "pid", "host"):
+        for k in ("env", "heappad", "heapfrag", "stack_kb", "rand", "time", "pid", "host"):
             cand = json.loads(json.dumps(cur))
             cand["vector"][k] = canonical[k]
             if cand["vector"] != cur["vector"] and holds(cand):
